@@ -16,7 +16,12 @@ RULE = (
     "set of already existing tables. The emitted PostgreSQL DDL (mock connection) is parsed back to "
     "CREATE(inline fks)/ALTER ADD/DROP/ALTER DROP and compared with the model plan (the ALTER block, "
     "whose order is a set iteration order, is compared as a set). non-trivial = at least one FK or "
-    "dependency between two different tables (distribution counts cyclic graphs separately). Kind "
+    "dependency between two different tables (distribution counts cyclic graphs separately). Kinds "
+    "history-*: the MetaData is built by a HISTORY (tables defined parent-first / child-first, FKs by "
+    "name and as Column objects, MetaData.remove + redefinition of parent and/or child, "
+    "Table(..., extend_existing=True) keeping / retargeting / adding constraints; small-scope family "
+    "over single-column ForeignKey, ForeignKeyConstraint, two-column constraints + random histories) "
+    "and the plan must be the model's plan for the metadata the history leaves behind. Kind "
     "sqlite-live (oracle only, not modelled): create_all then drop_all really executed on in-memory "
     "SQLite with foreign_keys=ON (dialect without ALTER), catalog compared with the metadata"
 )
@@ -39,6 +44,9 @@ ASSUMPTIONS = [
     "drop_all: ALTER .. DROP CONSTRAINT needs a constraint name (documented); a cycle that cannot be "
     "broken through named constraints raises CircularDependencyError (documented)",
     "checkfirst: the tables that already exist form a referentially closed part of the MetaData",
+    "histories: a ForeignKey given as a Column OBJECT of a table that is later removed keeps pointing "
+    "at the removed Table (by construction, not a DDL-order matter) - such histories are not generated; "
+    "FKs given by name must follow the name",
 ]
 ANCHORS = [
     ("lib/sqlalchemy/sql/ddl.py", "sort_tables_and_constraints"),
@@ -53,6 +61,14 @@ ANCHORS = [
     ("lib/sqlalchemy/sql/ddl.py", "SchemaDropper._can_drop_table"),
     ("lib/sqlalchemy/sql/compiler.py", "DDLCompiler.create_table_constraints"),
     ("lib/sqlalchemy/sql/schema.py", "MetaData.sorted_tables"),
+    # what keeps foreign keys pointing at the CURRENT tables across remove / redefine / extend_existing
+    ("lib/sqlalchemy/sql/schema.py", "ForeignKey._set_table"),
+    ("lib/sqlalchemy/sql/schema.py", "ForeignKey._remove_from_metadata"),
+    ("lib/sqlalchemy/sql/schema.py", "Column._setup_on_memoized_fks"),
+    ("lib/sqlalchemy/sql/schema.py", "ForeignKeyConstraint.referred_table"),
+    ("lib/sqlalchemy/sql/schema.py", "MetaData._add_table"),
+    ("lib/sqlalchemy/sql/schema.py", "MetaData._remove_table"),
+    ("lib/sqlalchemy/sql/schema.py", "MetaData.remove"),
 ]
 
 
@@ -150,6 +166,100 @@ def _random_md(rng, nmax):
     return tables
 
 
+def _hcase(op, steps, kind, existing=None, checkfirst=0):
+    cur = _current(steps) or []
+    names = sorted(t[0] for t in cur)
+    if existing is None:
+        existing = names if op == 1 else []
+    if op in (2, 3):
+        existing = []
+    if op == 2:
+        checkfirst = 0
+    c = {"in": [10 + op, existing, checkfirst, steps], "kind": kind}
+    if op == 3:
+        c["model"] = False
+    return c
+
+
+def _history_family(rng):
+    """small-scope histories: parent P / child C (FK C->P) / optional grandchild G (FK G->C), defined
+    in both orders, then MetaData.remove + redefinition of P and/or C, or extend_existing (same or new
+    target), for single-column ForeignKey, single-column ForeignKeyConstraint and two-column
+    constraints (_ncols/_style depend on the table number), named and unnamed"""
+    cases = []
+    for cn in (1, 3, 4):  # FKC / two-column FKC / column-level ForeignKey
+        for pn in (0, 2, 5):  # sorts before / between / after the child's key
+            gn, qn = 6, 7
+            for nm in (0, 1):
+                P = [pn, [], []]
+                C = [cn, [[0, pn, 0, nm]], []]
+                G = [gn, [[0, cn, 0, nm]], []]
+                Q = [qn, [], []]
+                for first in ("P", "C"):
+                    base = [[0, P], [0, C]] if first == "P" else [[0, C], [0, P]]
+                    muts = {
+                        "none": [],
+                        "redefP": [[1, P], [0, P]],
+                        "redefC": [[1, C], [0, C]],
+                        "redefPC": [[1, P], [1, C], [0, P], [0, C]],
+                        "redefCP": [[1, C], [1, P], [0, C], [0, P]],
+                        "redefP2": [[1, P], [0, P], [1, P], [0, P]],
+                        "extP": [[2, P]],
+                        "extC": [[2, C]],
+                        "extC-retarget": [[0, Q], [2, [cn, [[0, qn, 0, nm]], []]]],
+                        "extC-add": [[0, Q], [2, [cn, [[1, qn, 0, nm]], []]]],
+                        "redefP-selfref": [[1, P], [0, [pn, [[0, pn, 0, nm]], []]]],
+                        "redefP-cycle": [[1, P], [0, [pn, [[0, cn, 0, 1]], []]]],
+                    }
+                    for mname, mut in muts.items():
+                        with_g = rng.random() < 0.5
+                        steps = base + ([[0, G]] if with_g else []) + mut
+                        if with_g and rng.random() < 0.3:
+                            steps = steps + [[1, G], [0, G]]
+                        for op in (0, 1, 2):
+                            cases.append(_hcase(op, steps, "history-" + mname))
+                        if rng.random() < 0.15:
+                            cases.append(_hcase(3, steps, "history-sqlite-live", checkfirst=rng.randint(0, 1)))
+    # a table defined twice without remove / extend_existing: the history itself is rejected
+    cases.append(_hcase(0, [[0, [1, [], []]], [0, [1, [], []]]], "history-invalid"))
+    cases.append(_hcase(2, [[0, [2, [], []]], [1, [2, [], []]], [0, [2, [], []]], [0, [2, [], []]]], "history-invalid"))
+    return cases
+
+
+def _random_history(rng):
+    tables = _random_md(rng, 5)
+    for t in tables:
+        t[2] = []
+    names = [t[0] for t in tables]
+    steps = [[0, t] for t in tables]
+    rng.shuffle(steps)
+
+    def newfks(name, old):
+        fks = []
+        for b in names:
+            if rng.random() < 0.3:
+                fks.append([len(fks), b, int(rng.random() < 0.15), int(rng.random() < 0.7)])
+        return fks if rng.random() < 0.5 else [list(f) for f in old]
+
+    for _ in range(rng.randint(1, 4)):
+        cur = _current(steps)
+        t = rng.choice(cur)
+        r = rng.random()
+        if r < 0.55:  # remove + define again (same or new constraints), possibly with steps in between
+            steps.append([1, [t[0], [], []]])
+            if rng.random() < 0.3:
+                u = rng.choice(cur)
+                if u[0] != t[0]:
+                    steps += [[1, [u[0], [], []]], [0, [u[0], newfks(u[0], u[1]), []]]]
+            steps.append([0, [t[0], newfks(t[0], t[1]), []]])
+        else:  # extend_existing: retarget some constraints, add one
+            ch = [[f[0], rng.choice(names), f[2], f[3]] for f in t[1] if rng.random() < 0.5]
+            if rng.random() < 0.5:
+                ch.append([max([f[0] for f in t[1]] + [-1]) + 1, rng.choice(names), 0, int(rng.random() < 0.7)])
+            steps.append([2, [t[0], ch, []]])
+    return steps
+
+
 def gen_cases(rng, tier):
     cases = []
     nmax = 4 if tier == "thorough" else 3
@@ -180,12 +290,12 @@ def gen_cases(rng, tier):
                     cases.append(_case(0, _mk(order, g, pats[2]), kind))
                     cases.append(_case(1, _mk(order, g, pats[0]), kind))
                     cases.append(_case(2, _mk(order, g, pats[1]), kind))
-                else:
+                elif n < 3 or tier == "thorough" or rng.random() < 0.7:
                     cases.append(_case(0, _mk(order, g, pats[1]), kind))
                     cases.append(_case(1, _mk(order, g, pats[2]), kind))
                     if rng.random() < 0.3:
                         cases.append(_case(2, _mk(order, g, pats[2]), kind))
-    nrand = 6000 if tier == "thorough" else 1000
+    nrand = 5000 if tier == "thorough" else 700
     for _ in range(nrand):
         tables = _random_md(rng, 7)
         op = rng.choice([0, 0, 1, 1, 2])
@@ -193,9 +303,19 @@ def gen_cases(rng, tier):
             cases.append(_case(op, tables, "random-checkfirst", _closed_subset(rng, tables), 1))
         else:
             cases.append(_case(op, tables, "random"))
+    # metadata histories: remove / redefine / extend_existing before the plan is computed
+    cases += _history_family(rng)
+    for _ in range(3000 if tier == "thorough" else 350):
+        steps = _random_history(rng)
+        op = rng.choice([0, 0, 1, 1, 2])
+        cur = _current(steps)
+        if op != 2 and rng.random() < 0.3:
+            cases.append(_hcase(op, steps, "history-random", _closed_subset(rng, cur), 1))
+        else:
+            cases.append(_hcase(op, steps, "history-random"))
     # live SQLite (a dialect WITHOUT ALTER: everything inline, drop order unsorted on cycles): create_all
     # then drop_all really executed; outside the Coq model (no referee for existence there), oracle only
-    for _ in range(1500 if tier == "thorough" else 250):
+    for _ in range(1200 if tier == "thorough" else 200):
         tables = _random_md(rng, 6)
         for t in tables:
             t[2] = [p for p in t[2] if p != t[0]]
@@ -248,7 +368,7 @@ def _has_cycle(es, nodes):
 
 
 def nontrivial(c):
-    op, ex, cf, tables = c["in"]
+    tables = _tables_of(c) or []
     return any(a != b for a, b in _deps(tables) | {(f[1], t[0]) for t in tables for f in t[1]})
 
 
@@ -257,13 +377,53 @@ def _ncols(t, k):
     return 2 if (t + k) % 3 == 0 else 1
 
 
-def _build(tables):
+def _current(steps):
+    """the metadata a history leaves behind: list of [name, fks (sorted by id), extra] in
+    MetaData.tables (dict) order; None if a table is defined twice (InvalidRequestError)"""
+    cur = []
+    for kind, (name, fks, extra) in steps:
+        idx = next((i for i, t in enumerate(cur) if t[0] == name), None)
+        if kind == 0:
+            if idx is not None:
+                return None
+            cur.append([name, [list(f) for f in fks], list(extra)])
+        elif kind == 1:
+            if idx is not None:
+                del cur[idx]
+        else:
+            if idx is None:
+                cur.append([name, [list(f) for f in fks], list(extra)])
+            else:
+                new_ids = {f[0] for f in fks}
+                old = cur[idx]
+                merged = [f for f in old[1] if f[0] not in new_ids] + [list(f) for f in fks]
+                cur[idx] = [name, sorted(merged, key=lambda f: f[0]), old[2] + list(extra)]
+    return cur
+
+
+def _tables_of(c):
+    """the (current) tables a case is about"""
+    op, existing, checkfirst, x = c["in"]
+    return _current(x) if op >= 10 else x
+
+
+def _build(steps, use_objects=False):
+    """replay a history of Table(...) / MetaData.remove / Table(..., extend_existing=True).  A foreign
+    key is given by name ("t3.id"); with use_objects some are given as Column objects instead - only
+    where the referred table exists, is another table and is not removed later (a Column object of a
+    removed table is a stale target by construction, not a property of the DDL ordering)."""
     from sqlalchemy import Column, ForeignKey, ForeignKeyConstraint, Integer, MetaData, Table
 
     md = MetaData()
-    objs = {}
-    for name, fks, extra in tables:
-        cols = [Column("id", Integer, primary_key=True), Column("id2", Integer)]
+    for si, (kind, (name, fks, extra)) in enumerate(steps):
+        tname = "t%d" % name
+        if kind == 1:
+            if tname in md.tables:
+                md.remove(md.tables[tname])
+            continue
+        removed_later = {st[1][0] for st in steps[si + 1 :] if st[0] == 1}
+        extending = kind == 2 and tname in md.tables
+        cols = [] if extending else [Column("id", Integer, primary_key=True), Column("id2", Integer)]
         cons = []
         for i, ref, ua, nm in fks:
             kw = {}
@@ -271,21 +431,46 @@ def _build(tables):
                 kw["use_alter"] = True
             if nm:
                 kw["name"] = "fk_%d_%d" % (name, i)
+            rname = "t%d" % ref
+            obj = (
+                use_objects
+                and ref != name
+                and rname in md.tables
+                and ref not in removed_later
+                and (name + i + si) % 2 == 0
+            )
             if _ncols(name, i) == 2:
                 cols += [Column("c%d" % i, Integer), Column("c%db" % i, Integer)]
-                cons.append(
-                    ForeignKeyConstraint(["c%d" % i, "c%db" % i], ["t%d.id" % ref, "t%d.id2" % ref], **kw)
-                )
+                tgt = [md.tables[rname].c.id, md.tables[rname].c.id2] if obj else [rname + ".id", rname + ".id2"]
+                cons.append(ForeignKeyConstraint(["c%d" % i, "c%db" % i], tgt, **kw))
             elif (name + i) % 2:
                 cols.append(Column("c%d" % i, Integer))
-                cons.append(ForeignKeyConstraint(["c%d" % i], ["t%d.id" % ref], **kw))
+                cons.append(ForeignKeyConstraint(["c%d" % i], [md.tables[rname].c.id if obj else rname + ".id"], **kw))
             else:
-                cols.append(Column("c%d" % i, Integer, ForeignKey("t%d.id" % ref, **kw)))
-        objs[name] = Table("t%d" % name, md, *(cols + cons))
-    for name, fks, extra in tables:
+                cols.append(Column("c%d" % i, Integer, ForeignKey(md.tables[rname].c.id if obj else rname + ".id", **kw)))
+        if extending:
+            Table(tname, md, *(cols + cons), extend_existing=True)
+        else:
+            Table(tname, md, *(cols + cons))  # InvalidRequestError if already defined
+    cur = _current(steps)
+    for name, fks, extra in cur:
         for p in extra:
-            objs[name].add_is_dependent_on(objs[p])
+            if "t%d" % p in md.tables:
+                md.tables["t%d" % name].add_is_dependent_on(md.tables["t%d" % p])
     return md
+
+
+def _build_case(c):
+    """(metadata, current tables) or (None, None) when the history itself is rejected"""
+    from sqlalchemy import exc
+
+    op, existing, checkfirst, x = c["in"]
+    if op < 10:
+        return _build([[0, t] for t in x]), x
+    try:
+        return _build(x, use_objects=True), _current(x)
+    except exc.InvalidRequestError:
+        return None, None
 
 
 _FK = re.compile(r"(?:CONSTRAINT (\w+) )?FOREIGN KEY\(([^)]*)\) REFERENCES (\w+) \(([^)]*)\)")
@@ -341,7 +526,7 @@ def _abstract(sql, decl):
     return [9, [ord(ch) for ch in s[:40]]]
 
 
-def _emit(op, existing, checkfirst, tables):
+def _emit(op, existing, checkfirst, tables, md):
     """run create_all / drop_all against a mock PostgreSQL connection; returns the abstract statement
     list or an error code"""
     import warnings
@@ -350,7 +535,6 @@ def _emit(op, existing, checkfirst, tables):
     from sqlalchemy.dialects import postgresql
     from sqlalchemy.engine.mock import MockConnection
 
-    md = _build(tables)
     decl = {(t[0], f[0]): (f[1], f[2], f[3]) for t in tables for f in t[1]}
     out = []
     dialect = postgresql.dialect()
@@ -382,13 +566,12 @@ def _emit(op, existing, checkfirst, tables):
     return out, 0
 
 
-def _live_sqlite(checkfirst, tables):
+def _live_sqlite(checkfirst, md):
     """create_all then drop_all on a real in-memory SQLite with foreign keys enforced"""
     import warnings
 
     from sqlalchemy import create_engine, event, text
 
-    md = _build(tables)
     eng = create_engine("sqlite://", connect_args={"autocommit": False})
 
     @event.listens_for(eng, "connect")
@@ -420,15 +603,18 @@ def _live_sqlite(checkfirst, tables):
 
 
 def impl(c):
-    op, existing, checkfirst, tables = c["in"]
+    op, existing, checkfirst, _ = c["in"]
+    md, tables = _build_case(c)
+    if md is None:
+        return [6]
+    op = op % 10
     if op == 3:
-        return _live_sqlite(checkfirst, tables)
+        return _live_sqlite(checkfirst, md)
     if op == 2:
         import warnings
 
         from sqlalchemy import exc
 
-        md = _build(tables)
         with warnings.catch_warnings(record=True) as w:
             warnings.simplefilter("always")
             try:
@@ -437,7 +623,7 @@ def impl(c):
                 return [1]
         warned = any("Cannot correctly sort tables" in str(x.message) for x in w)
         return [0, [int(t.name[1:]) for t in st], int(warned)]
-    out, err = _emit(op, existing, checkfirst, tables)
+    out, err = _emit(op, existing, checkfirst, tables, md)
     if err:
         return [err]
     # the statements made from list(remaining_fkcs) come in set-iteration order: compared as a set
@@ -508,7 +694,15 @@ class _Catalog:
 
 
 def oracle(c, obs):
-    op, existing, checkfirst, tables = c["in"]
+    """history cases (op >= 10): the property is about the MetaData as it is NOW - the tables currently
+    in it, each FK referring to the table that currently has the referred name"""
+    op, existing, checkfirst, _ = c["in"]
+    tables = _tables_of(c)
+    if tables is None:
+        return None if obs == [6] else "a table defined twice was accepted"
+    if obs == [6]:
+        return "InvalidRequestError while replaying a valid history"
+    op = op % 10
     names = [t[0] for t in tables]
     if op == 3:
         if obs[0] != 0:
@@ -577,7 +771,9 @@ def match_finding(c, what):
     """C14-drop-sibling-unnamed-fk: drop_all on a dependency cycle through table U where U has two
     constraints to the same table T, one droppable by ALTER (named) and one not (unnamed, no
     use_alter): the (T, U) edge is discarded with the named one, DROP TABLE T can come first."""
-    op, existing, checkfirst, tables = c["in"]
+    op, existing, checkfirst, _ = c["in"]
+    tables = _tables_of(c) or []
+    op = op % 10
     m = re.search(r"DROP TABLE t(\d+): constraint (\d+) of t(\d+) still references it", what or "")
     if op != 1 or not m:
         return None
